@@ -1415,7 +1415,9 @@ class Node:
         # have won the election and must close our earlier initiated
         # connections. If this is the only connection with the peer, nothing to
         # do.
-        other_connections = [peer for peer in self.connections.values()
+        # (a snapshot: the connection thread accepts and removes connections
+        # meanwhile)
+        other_connections = [peer for peer in list(self.connections.values())
                              if peer.origin_host == cer_origin_host]
         if other_connections:
             if self.origin_host.lower() > cer_origin_host:
